@@ -137,6 +137,18 @@ fn engine_shard(id: &str, tier: &str, seed: u64, replay: Option<&serde_json::Val
             let c = checks_c09::shard_run(tier, seed, shard);
             out.merge(c);
         }
+        if id == "C01" && out.found.is_empty() && replay.map(|r| r["replay"]["origin"] == "c01-walk-faults").unwrap_or(shard.k == 6 % shard.n) {
+            if let Some(f) = checks_c05::c01_walk_under_faults(seed, &mut out.cov) {
+                out.found.push(f);
+            }
+        }
+        if id == "C01" && out.found.is_empty() && replay.map(|r| r["replay"]["origin"] == "quota-walk").unwrap_or(shard.k == 7 % shard.n) {
+            let mut errs = vec![];
+            if let Some(f) = checks_c04::quota_walk_part("C01", &mut out.cov, &mut errs) {
+                out.found.push(f);
+            }
+            out.errors.extend(errs);
+        }
         if id == "C01" && replay.is_none() && out.found.is_empty() && shard.k == 5 % shard.n {
             if let Some(f) = checks_e1::bulk_chain(if tier == "thorough" { 70_000 } else { 10_500 }, seed, &mut out.cov) {
                 out.found.push(f);
